@@ -117,6 +117,7 @@ type World struct {
 	Handler *search.Handler
 	Corpus  *index.Corpus
 	NBlobs  int
+	mut     *Mutation // first mutation of a caller's query object seen since takeMut
 }
 
 var (
@@ -416,6 +417,22 @@ func (w *World) Query(k Kons, s search.SortType, limit int, cont string, around 
 		}
 	}()
 	q := &search.SearchQuery{Constraint: k.Make(), Sort: s, Limit: limit, Continue: cont, Around: around}
+	before := dumpQuery(q)
+	defer func() {
+		// Query must leave the caller's object alone (also when it panics)
+		if w.mut != nil {
+			return
+		}
+		if path, b, a, differ := diffDumps(before, dumpQuery(q)); differ {
+			kind := "plain"
+			if cont != "" {
+				kind = "continue"
+			} else if around.Valid() {
+				kind = "around"
+			}
+			w.mut = &Mutation{Kind: kind, Path: path, Before: b, After: a}
+		}
+	}()
 	res, err := w.Handler.Query(context.Background(), q)
 	srcMu.Lock()
 	r.Source = lastSrc
